@@ -275,7 +275,22 @@ class C14(Prop):
             "permuted axis order; every case through the n-D Lean model, 1-D and 2-D cases also through the 2-D model; "
             "prob: 2-D pairs, mask None/full/partial/ragged, blocks 1..5, n = 0..6 (n = 0: NaN, model only), all layouts. non-trivial = at least two blocks "
             "selected and moved, or a non-multiple shape, or a partial mask, or ties/threshold-on-value in coeff; distinct by "
-            "canonical case hash")
+            "canonical case hash. "
+            "coeff also: float32 / int64 / int32 / int16 / uint16 / uint8 images (same or different types for x and y; used when the type holds "
+            "the values exactly), Fortran-ordered / strided / transposed views independently for x and y, exact zeros as negative zeros, "
+            "means that are pixel values in both images (deviation exactly zero in x, in y, in both at one pixel). "
+            "shuffle also: mask None, image element types float32/int64/uint16, calls that leave out the arguments that have their default. "
+            "big (1.4% of the cases + 4 targeted in quick, 10 in thorough): one call moves more than 2^15 (2^16) blocks - 1-D arrays of "
+            "33000..270000 elements and 2-D images up to about 410 x 410 (quick) / 700 x 700 (thorough), blocks 1..3 per axis, both modes, "
+            "partial on/off, masks full / frame switched off / sparse holes / rows, values distinct or repeated, float masks, Fortran layout; "
+            "image, mask, permutation argument travel as formula / run lengths / index runs, result and recorded permutation as integer lists; "
+            "judged by c14.shuffle_big (quasi-linear forms of the same Lean relations; every ordinary 1-D/2-D shuffle case goes through both forms, "
+            "which must agree); also pearsonr_probablity with its default block on such images. "
+            "history (11.6% + 10 targeted): 2-3 consecutive calls of shuffle_blocks / pearsonr_probablity that share the mask object (edited in place by "
+            "the caller between the calls / unchanged / another object of equal or other content) and the image object, with the same or "
+            "changed block / mode / partial; every call judged for the array contents at the time of that call. "
+            "prob also: every call pearsonr_probablity makes to shuffle_blocks is observed and judged as a shuffle of its own, and against the "
+            "mask the routine was given (no pixel outside its selected blocks moves); default block; default arguments left out")
     trusted = ["the contiguity flags of the argument array (x.flags.c_contiguous / f_contiguous) are read from NumPy and are part of the input "
                "description; from them the Lean model derives whether the block view aliases the array (np.pad keeps Fortran order only for "
                "arrays that are Fortran- and not C-contiguous; np.ascontiguousarray copies exactly when the array is not C-contiguous; "
@@ -289,7 +304,19 @@ class C14(Prop):
                "evaluated in float64 for the given data: the data unit and the unit of the products (so every sum, mean and product), "
                "the two variances formed inside the standard deviations (so also their product), the smallest non-zero deviations and "
                "their product (ICQ) are >= 2^-960, and the sums of |x|, |y|, |xy|, x^2, y^2 and 4 sum|x| sum|y| are <= 2^1000 (exact "
-               "rational test in evaluate, also for the two affine variants); otherwise undetermined"]
+               "rational test in evaluate, also for the two affine variants); otherwise undetermined",
+               "float32 images: NumPy evaluates means, products and standard deviations in float32; an r that involves a float32 image is "
+               "compared at 2e-5 + 64*2^-23*(E|xy| + E|x|E|y|)/(sx sy), a Manders ratio of a float32 image at 2e-5 relative, and the ICQ is "
+               "undetermined when a non-zero deviation is below 1e-4 of the scale; integer images whose product x*y does not fit the integer "
+               "type (NumPy wraps silently): r and r_yx are recorded (feature dtype:integer-product-wraps), not judged - see notes/EC14.md",
+               "large shuffles: Python encodes (run lengths, integer lists) and snapshots; the relations are evaluated by the Lean driver in "
+               "their quasi-linear forms, proved equal to the reference forms (spec_outside_fast, spec_blocks_fast) and re-checked against "
+               "them on every small case; 'equal to the model's output for the recorded permutation' is the certificate specOutside + "
+               "specApplied (applied_determines_output, model_satisfies_applied); Std.HashSet of the Lean toolchain is trusted as compiled",
+               "calls of shuffle_blocks made by pearsonr_probablity are observed by replacing the name shuffle_blocks in pewlib.process.colocal "
+               "with a recording wrapper around the real function for the duration of the call (restored afterwards); an implementation "
+               "that does not go through that name is judged on r, p and the argument arrays only",
+               "the default block of pearsonr_probablity is read from its signature (inspect) when the case leaves the argument out"]
     assumptions = ["float64 images with dyadic values (sums and products exact); images non-constant over the pixels used; "
                    "Manders only with a non-zero image sum; block sizes >= 1; the 'fraction in [0, 1]' clause for n >= 1 shuffles (n = 0 gives NaN = 0/0 in "
                    "the code and `none` in the model; compared impl-vs-model only)"]
